@@ -84,11 +84,12 @@ theorem C01_manager (rules : List Rule) (p : Packet) (d : Dir) (st : Strategy)
     obtain ⟨c', h1, h2⟩ := C01_nocompression { p with dir := d } (restrict r d) hn hf' hraw
     rw [hcr'] at h1; cases h1; exact h2
 
-/-- End to end, from the bytes on the wire: for every stack configuration `factory` builds, every buffer its parser
-    accepts and every rule set as in `C01_manager` (the condition is on the rules that apply to the packet the parser
-    returns), `ContextManager.compress` followed by `ContextManager.decompress` with the same direction returns the
-    buffer, bit for bit. Joins C07 (the parsed fields and payload tile the buffer) with `C01_manager`. -/
-theorem C01_end_to_end (cfg : String) (hcfg : cfg ∈ supportedConfigs) (ps : List ParserInst) (hf : factory cfg = .ok ps)
+/-- End to end, from the bytes on the wire, for ANY stack of header parsers (any list, classes repeated, prediction on
+    or off) without a semantic CoAP parser: every buffer the stack parser accepts and every rule set as in
+    `C01_manager` (the condition is on the rules that apply to the packet the parser returns) — `ContextManager.compress`
+    followed by `ContextManager.decompress` with the same direction returns the buffer, bit for bit. Joins C07 (the
+    parsed fields and payload tile the buffer) with `C01_manager`. -/
+theorem C01_end_to_end_stack (ps : List ParserInst) (hm : ∀ q ∈ ps, q.coapMode = .syntactic)
     (rules : List Rule) (b : ABuf) (d : Dir) (st : Strategy)
     (hT : ∀ r ∈ rules, RuleTypeOK r) (hpf : PrefixFreeIds rules)
     (hgood : ∀ p, packetParse (fuelFor b) ps b = .ok p → ∀ r ∈ rules, Spec.applicable { p with dir := d } r = true →
@@ -101,16 +102,27 @@ theorem C01_end_to_end (cfg : String) (hcfg : cfg ∈ supportedConfigs) (ps : Li
   | error e => simp [hp, bind, Except.bind] at hc
   | ok p =>
     simp only [hp, bind, Except.bind] at hc
-    have hm : ∀ q ∈ ps, q.coapMode = .syntactic := by
-      have htab : supportedConfigs.all (fun c => match factory c with | .ok l => l.all (fun q => q.coapMode == .syntactic) | .error _ => false) = true := by decide
-      have := List.all_eq_true.mp htab cfg hcfg
-      rw [hf] at this
-      intro q hq
-      simpa using List.all_eq_true.mp this q hq
     obtain ⟨t1, t2⟩ := packetParse_tiles (fuelFor b) ps hm b p hp
     have hraw : p.raw.bits = p.fields.flatMap (·.value.bits) ++ p.payload.bits := by rw [t2, ← t1]; rfl
     have := C01_manager rules p d st hT hpf (hgood p hp) hraw c hc
     rw [this, t2]
+
+/-- … in particular for every stack configuration `factory` builds -/
+theorem C01_end_to_end (cfg : String) (hcfg : cfg ∈ supportedConfigs) (ps : List ParserInst) (hf : factory cfg = .ok ps)
+    (rules : List Rule) (b : ABuf) (d : Dir) (st : Strategy)
+    (hT : ∀ r ∈ rules, RuleTypeOK r) (hpf : PrefixFreeIds rules)
+    (hgood : ∀ p, packetParse (fuelFor b) ps b = .ok p → ∀ r ∈ rules, Spec.applicable { p with dir := d } r = true →
+      (r.nature = .compression ∧ AllFits p.fields (restrict r d).fields)
+      ∨ (r.nature = .noCompression ∧ r.fields = []))
+    (c : ABuf) (hc : managerCompress ps rules b d st = .ok c) :
+    managerDecompress rules c (some d) = .ok ⟨b.bits, .right⟩ := by
+  have hm : ∀ q ∈ ps, q.coapMode = .syntactic := by
+    have htab : supportedConfigs.all (fun c => match factory c with | .ok l => l.all (fun q => q.coapMode == .syntactic) | .error _ => false) = true := by decide
+    have := List.all_eq_true.mp htab cfg hcfg
+    rw [hf] at this
+    intro q hq
+    simpa using List.all_eq_true.mp this q hq
+  exact C01_end_to_end_stack ps hm rules b d st hT hpf hgood c hc
 
 /-- With an unparser (`decompress(schc_packet, rule, unparser=parser)`, the path a receiver takes when the packet
     was parsed with CoAP options in semantic mode): whatever `PacketParser.unparse` makes of the parsed fields followed
